@@ -185,3 +185,13 @@ fn d14_request_argument_ending_in_newline_keeps_the_next_request_on_its_own_line
     assert!(roff.lines().any(|l| l == ".SH NAME"), "{}", roff);
 }
 
+/// D7 (C04/C14): completion requested for an empty line with an env-backed flag whose variable is set must not panic
+/// (`self.items.len() - 1` underflowed in `touching_last_remove`: "attempt to subtract with overflow")
+#[test]
+fn d7_completion_on_empty_line_with_env_backed_flag_does_not_panic() {
+    std::env::set_var("VERIF_DEMO_D7", "1");
+    let p = short('v').long("verbose").env("VERIF_DEMO_D7").switch().to_options();
+    let r = std::panic::catch_unwind(std::panic::AssertUnwindSafe(|| p.run_inner(Args::from(&[] as &[&str]).set_comp(0))));
+    assert!(r.is_ok(), "completion on an empty line panicked");
+}
+
